@@ -261,6 +261,30 @@ func (dec *tomlDecoder) processTopLevelNode(currentNode *toml.Node) (bool, error
 	return runAgainstCurrentExp, err
 }
 
+// a table path that goes through an array of tables refers to the
+// most recently defined table of that array
+func (dec *tomlDecoder) resolveTablePath(path []interface{}) []interface{} {
+	resolved := make([]interface{}, 0, len(path))
+	node := dec.rootMap
+	for i, segment := range path {
+		resolved = append(resolved, segment)
+		var child *CandidateNode
+		if node != nil && node.Kind == MappingNode {
+			for j := 0; j+1 < len(node.Content); j += 2 {
+				if node.Content[j].Value == segment {
+					child = node.Content[j+1]
+				}
+			}
+		}
+		node = child
+		if node != nil && node.Kind == SequenceNode && len(node.Content) > 0 && i < len(path)-1 {
+			resolved = append(resolved, len(node.Content)-1)
+			node = node.Content[len(node.Content)-1]
+		}
+	}
+	return resolved
+}
+
 func (dec *tomlDecoder) processTable(currentNode *toml.Node) (bool, error) {
 	log.Debug("Enter processTable")
 	fullPath := dec.getFullPath(currentNode.Child())
@@ -281,19 +305,19 @@ func (dec *tomlDecoder) processTable(currentNode *toml.Node) (bool, error) {
 		tableValue = dec.parser.Expression()
 		// next expression is not table data, so we are done
 		if tableValue.Kind != toml.KeyValue {
-			log.Debug("got an empty table, returning")
-			return true, nil
-		}
-
-		runAgainstCurrentExp, err = dec.decodeKeyValuesIntoMap(tableNodeValue, tableValue)
-		if err != nil && !errors.Is(err, io.EOF) {
-			return false, err
+			log.Debug("got an empty table")
+			runAgainstCurrentExp = true
+		} else {
+			runAgainstCurrentExp, err = dec.decodeKeyValuesIntoMap(tableNodeValue, tableValue)
+			if err != nil && !errors.Is(err, io.EOF) {
+				return false, err
+			}
 		}
 	}
 
 	c := Context{}
 	c = c.SingleChildContext(dec.rootMap)
-	err = dec.d.DeeplyAssign(c, fullPath, tableNodeValue)
+	err = dec.d.DeeplyAssign(c, dec.resolveTablePath(fullPath), tableNodeValue)
 	if err != nil {
 		return false, err
 	}
@@ -330,28 +354,34 @@ func (dec *tomlDecoder) processArrayTable(currentNode *toml.Node) (bool, error) 
 	// need to use the array append exp to add another entry to
 	// this array: fullpath += [ thing ]
 
-	hasValue := dec.parser.NextExpression()
-	if !hasValue {
-		return false, fmt.Errorf("error retrieving table %v value: %w", fullPath, dec.parser.Error())
-	}
-
 	tableNodeValue := &CandidateNode{
 		Kind: MappingNode,
 		Tag:  "!!map",
 	}
 
-	tableValue := dec.parser.Expression()
-	runAgainstCurrentExp, err := dec.decodeKeyValuesIntoMap(tableNodeValue, tableValue)
-	log.Debugf("table node err: %w", err)
-	if err != nil && !errors.Is(err, io.EOF) {
-		return false, err
+	runAgainstCurrentExp := false
+	var err error
+	if dec.parser.NextExpression() {
+		tableValue := dec.parser.Expression()
+		if tableValue.Kind != toml.KeyValue {
+			// an array table without any entries of its own
+			runAgainstCurrentExp = true
+		} else {
+			runAgainstCurrentExp, err = dec.decodeKeyValuesIntoMap(tableNodeValue, tableValue)
+			log.Debugf("table node err: %w", err)
+			if err != nil && !errors.Is(err, io.EOF) {
+				return false, err
+			}
+		}
+	} else if dec.parser.Error() != nil {
+		return false, fmt.Errorf("error retrieving table %v value: %w", fullPath, dec.parser.Error())
 	}
 	c := Context{}
 
 	c = c.SingleChildContext(dec.rootMap)
 
 	// += function
-	err = dec.arrayAppend(c, fullPath, tableNodeValue)
+	err = dec.arrayAppend(c, dec.resolveTablePath(fullPath), tableNodeValue)
 
 	return runAgainstCurrentExp, err
 }
